@@ -75,3 +75,10 @@ package stdlib_contracts
 //@ func New   trusted
 //@   modifies nothing
 //@   ensures result != nil
+
+//@ package sort
+
+// documented: Search returns the smallest index i in [0, n) at which f(i) is true, or n
+//@ func Search   trusted
+//@   modifies nothing
+//@   ensures 0 <= result && result <= n
